@@ -19,6 +19,7 @@ NCORES = 16
 
 CASE_TLIMIT = int(os.environ.get('VERIF_CASE_TLIMIT', '15'))
 MAX_CONFIRM_TIMEOUTS = 12
+MAX_CONFIRM_OTHER = 48
 STATS = {'max_case_ms': 0.0}
 
 
@@ -249,11 +250,16 @@ def run_cases(vx, cases, batch=200, timeout=None, jobs=None, env_extra=None, con
         # (a change that hangs hundreds of cases must not turn a check of minutes into one of hours).
         bad = [i for i, r in enumerate(results) if r is not None and r.status != 'ok']
         nto = 0; todo = []
+        nother = 0
         for i in bad:
             if results[i].status == 'timeout':
                 nto += 1
                 if nto > MAX_CONFIRM_TIMEOUTS:
                     results[i].detail += ' (not re-run alone: %d earlier timeouts of this run were)' % MAX_CONFIRM_TIMEOUTS; continue
+            else:
+                nother += 1
+                if nother > MAX_CONFIRM_OTHER:
+                    results[i].detail += ' (not re-run alone: %d earlier failing cases of this run were)' % MAX_CONFIRM_OTHER; continue
             todo.append(i)
 
         def confirm_one(i):
